@@ -12,7 +12,9 @@ mod vbus;
 
 mod eng_codec;
 mod eng_gsd;
+mod eng_las;
 mod eng_prm;
+mod eng_ring;
 mod eng_rx;
 
 use util::*;
@@ -136,6 +138,8 @@ fn main() {
 
     let t0 = std::time::Instant::now();
     match prop.as_str() {
+        "C01" => eng_ring::c01(&mut ctx),
+        "C02" => eng_ring::c02(&mut ctx),
         "C09" => eng_codec::c09(&mut ctx),
         "C10" => eng_codec::c10(&mut ctx),
         "C16" => eng_rx::c16(&mut ctx),
